@@ -34,6 +34,8 @@ if [ "${1:-}" = "C09" ] || [ "${1:-}" = "all" ]; then
   # no Try method does not compile that way, so fall back to plain yield insertion.
   c09build 2>/tmp/verifsim-c09-build.$$ || { echo "build.sh: C09 worker does not build with scheduler-aware locks; retrying without" >&2; VERIF_YIELD_NOLOCKS=1 c09build; }
   rm -f /tmp/verifsim-c09-build.$$
+  # the race probe: a -race test binary of the same package against the unmodified repository
+  go1.26.8 test -c -race $MODFILE -tags verif -o ../bin/verifsim-c09-race ./worldr
   rm -rf "$COPY"; trap - EXIT
 fi
 if [ "${1:-}" = "C20" ] || [ "${1:-}" = "all" ]; then
